@@ -116,6 +116,10 @@ def execute(prog, how, pol, seed, monitors, rrt_exp=None, fresh_scheduler=True, 
         rt.step_probes.append(M.step_after_done_probe)
     if "active" in monitors:
         rt.step_probes.append(M.active_task_probe)
+    if "active" in monitors or "stale" in monitors:
+        rt.ctx_probes.append(lambda rt_, ctx, what: M.stale_active_probe(rt_, "context " + what))
+        rt.flush_probes.append(lambda rt_, b, items: M.stale_active_probe(rt_, "flush body"))
+        rt.provider_probes.append(lambda rt_: M.stale_active_probe(rt_, "value provider"))
     if "peek" in monitors:
         rt.step_probes.append(M.peek_probe)
         rt.before_probes.append(M.peek_probe)
@@ -209,6 +213,7 @@ COUNTER_ATTRS = [
     "n_lazy_checks",
     "n_unchanged_checks",
     "n_peeks",
+    "n_stale_active_checks",
     "n_ctx_checks",
     "n_ctx_exclusive",
     "n_ctx_must_be_paused",
